@@ -16,7 +16,8 @@ import math
 import os
 
 from . import catalog, queryast
-from .catalog import Collab, CollabError, UTC, time_from_json
+from .catalog import (Collab, CollabError, CollabInterrupt, UTC,
+                      time_from_json)
 from .csvdecode import DecodeError, decode_bytes
 from .model import MPoint, Model, eval_query
 from .seams import Seams, SimClock, set_tz
@@ -195,9 +196,16 @@ def well_typed(p):
 
 
 def time_ok(t):
-    return (t is not None and t.tzinfo is not None
-            and t.utcoffset() is not None
-            and t.utcoffset().total_seconds() == 0)
+    """An aware *UTC* datetime: offset zero as a property of the tzinfo
+    itself, not of this particular instant in some other zone."""
+    import datetime as _dt
+    if t is None or t.tzinfo is None:
+        return False
+    try:
+        return t.utcoffset() == _dt.timedelta(0) and \
+            t.tzinfo.utcoffset(None) == _dt.timedelta(0)
+    except Exception:
+        return False
 
 
 def diff_points(actual, expected, strict_zero=False):
@@ -512,8 +520,8 @@ class World:
                 fn = catalog.UPDATER_MAKERS[name](s)
                 c = Collab(name + ":" + s["fn"], fn)
                 if cf and cf.get("which") == name:
-                    if cf["kind"] == "raise":
-                        c.fault = (cf["n"], "raise")
+                    if cf["kind"] in ("raise", "interrupt"):
+                        c.fault = (cf["n"], cf["kind"])
                     else:
                         c.fault = (cf["n"], ("ret", unjson(cf["value"])))
                 self.collabs[name] = c
@@ -542,6 +550,8 @@ class World:
             return Outcome("ret", v)
         except SimCrash:
             return Outcome("crash")
+        except CollabInterrupt as e:
+            return Outcome("exc", exc=e)
         except (HarnessError, AssertionError) as e:
             if isinstance(e, AssertionError) and not _from_harness(e):
                 return Outcome("exc", exc=e)
@@ -982,6 +992,7 @@ class World:
                 # contents stay as they were
                 self.model = pre_model.copy()
                 exp = ("raises", (CollabError,) if cf["kind"] == "raise"
+                       else (CollabInterrupt,) if cf["kind"] == "interrupt"
                        else (ValueError, TypeError))
 
         ctx = {
@@ -1154,7 +1165,7 @@ class World:
             self.fail({"C15"}, "write-allowed-in-mode",
                       "%s returned normally in access mode %r"
                       % (k, ctx["pre_mode"]), i)
-        if CollabError in exp[1]:
+        if CollabError in exp[1] or CollabInterrupt in exp[1]:
             # C11 is conditional on the call raising: a swallowed failure is
             # only a violation if the contents changed (check_state).
             self.count("collab-failure-swallowed")
@@ -1478,6 +1489,10 @@ class World:
             if self.csv and d is None:
                 self.pending = 0
         ctx["actual"] = actual
+        if d is None and lenient and len(actual) < len(expected):
+            # rows still sit in the handle's buffer: the logical contents
+            # (what the index must mirror) are the model's
+            ctx["actual"] = list(expected)
         if d is None:
             if self.prop == "C04" and ctx["out"].kind == "ret":
                 self.evals += 1
